@@ -260,6 +260,30 @@ def rule_SH(run: Run) -> RuleResult:
     logs = [(e.target.key() if e.target is not None else "", [a.key() for a in e.args]) for p in bps if p.status == "ret" for e in p.events if e.kind == "call" and e.text == "log"]
     ok = bool(logs) and all(t == "call:logging.getLogger(attr:name(request))" and a == ["attr:level(request)", "attr:msg(request)"] for t, a in logs)
     res.add("labrea.logging._builtin_logging_handler:emits request.msg at request.level on the named logger", ok, lm.relpath, bh.node.lineno, f"{logs[:2]}", nec)
+    # a handler of a side request evaluates nothing but its own switch: whatever else it evaluated (all options resolved for a
+    # debug record, a dataset consulted for a label) could fail or differ for options the graph never reads — and only on the
+    # paths that reach the handler (a cache miss, a logged evaluation), so the outcome would depend on the side machinery
+    SWITCH_KEYS = {"log": {"Const('LABREA.LOGGING.DISABLED')"},
+                   "set": {"Const('LABREA.CACHE.DISABLED')", "Const('LABREA.CACHE.DISABLE')"}}
+    SWITCH_KEYS["get"] = SWITCH_KEYS["exists"] = SWITCH_KEYS["set"]
+    for kind_ in ("log", "set", "get", "exists"):
+        hq_ = H.get(kind_)
+        if hq_ is None:
+            continue
+        fi_, ps_ = _paths_fn(run, hq_, no_inline=tuple(tw_short.values()))
+        extra = None
+        for p in ps_:
+            for e in p.events:
+                if e.kind in ("unfold", "op") and e.op in ("evaluate", "validate", "keys", "explain") and e.depth == 0 or (e.kind in ("unfold", "op") and e.op == "evaluate" and not e.via):
+                    t_ = e.target
+                    key_ = t_.attrs.get("key").key() if isinstance(t_, New) and t_.cls.name == "Option" and t_.attrs.get("key") is not None else None
+                    if key_ in SWITCH_KEYS[kind_]:
+                        continue
+                    # the nested default of the two-spelling cache switch is reached through the outer Option (via non-empty)
+                    if extra is None:
+                        extra = (e.line, f"{e.op} of {t_.key()[:70] if t_ is not None else '?'} (line {e.line})")
+        res.add(f"{hq_}:evaluates nothing but its switch", extra is None, fi_.module.relpath, extra[0] if extra else fi_.node.lineno,
+                "the only evaluation in the handler is that of its switch option" if extra is None else "also performs " + extra[1], nec)
     ld = repo.func("labrea.logging.disabled")
     lps = analyse_function(Ctx(repo), ld.module, ld.node)
     from . import rules_runtime as RTN
@@ -671,6 +695,25 @@ def rule_HD(run: Run) -> RuleResult:
             e.kind == "store" and len(e.args) == 2 and e.args[0].key() == RTN.D_KEY and e.args[1].key() == f"index({c0})"
             and e.target is not None and e.target.key() == hp_ for e in p.events) for p in hps)
     res.add("labrea.runtime.Request.handle:registers the default and returns the handler", ok, rq.module.relpath, h.lineno if h else 0, "", nec)
+    # the default handler of the type-validation request accepts every value: Option(type=…) is documentation until a third-party
+    # handler enforces it.  A default that starts rejecting values (or consults the options) changes which evaluations succeed
+    for hq in regs.get("TypeValidationRequest", []):
+        fi = repo.functions.get(hq)
+        if fi is None:
+            continue
+        bad = None
+        for p in analyse_function(Ctx(repo), fi.module, fi.node):
+            if p.status == "raise":
+                bad = bad or (p.exc[2] if p.exc else fi.node.lineno, f"can raise {p.exc[0] if p.exc else '?'}")
+            for e in p.events:
+                if e.kind in ("op", "unfold") or (e.kind == "call" and (e.text.endswith("get_dotted_key") or e.text == "run")):
+                    bad = bad or (e.line, f"performs {e.op or e.text} (line {e.line})")
+            if p.status == "ret" and p.ret is not None and p.ret.key() != "Const(None)":
+                bad = bad or (fi.node.lineno, f"returns {p.ret.key()[:40]}")
+        res.add(f"{hq}:the default type-validation handler accepts every value", bad is None, fi.module.relpath, bad[0] if bad else fi.node.lineno,
+                "no path raises, evaluates or looks anything up" if bad is None else bad[1],
+                "Option.evaluate issues the type request for every present value: a default handler that rejects (an int for a float, a str "
+                "under a strict flag) turns evaluations that the property says succeed into failures, or makes a coalesce skip the provided value (C04, C13, C03)")
     return res
 
 
@@ -1217,10 +1260,14 @@ def rule_GA(run: Run) -> RuleResult:
         eff_g = {id(n_): t_ for n_, t_ in astu.effective_tests(ga)}
         for s in stmts:
             if isinstance(s, ast.If) and any(isinstance(x, ast.Raise) for x in s.body):
-                t = ast.unparse(eff_g.get(id(s), s.test))
-                if f"{name}.startswith('_" in t or f"{name}.startswith(\"_" in t:
+                te = eff_g.get(id(s), s.test)
+                t = ast.unparse(te)
+                reads_self = any(isinstance(x, ast.Attribute) and isinstance(x.value, ast.Name) and x.value.id == "self" and x.attr != "__dict__" for x in ast.walk(te))
+                if (f"{name}.startswith('_" in t or f"{name}.startswith(\"_" in t) and not reads_self:
                     guarded = True
                     break
+                if reads_self:
+                    break       # the guard's own test reads instance state (self.x in `name.startswith('_') and name not in self.x`)
             # any self access before the guard?  (self.__dict__ is found by normal lookup and cannot recurse)
             if isinstance(s, ast.Assign) and len(s.targets) == 1 and isinstance(s.targets[0], ast.Name) and any(
                     isinstance(nx, ast.If) and isinstance(nx.test, ast.Name) and nx.test.id == s.targets[0].id for nx in stmts):
@@ -1334,6 +1381,18 @@ def rule_GS(run: Run) -> RuleResult:
                 ok = full in SHARED_TABLES
                 res.add(f"{q}:mutates module-level {hit[0]}", ok, m.relpath, x.lineno,
                         f"{hit[1]}" + (f" — registered shared table: {SHARED_TABLES[full]}" if ok else " — module-level mutable state that is not one of the guarded shared tables"), nec)
+    # thread-local and context-local objects are module-level state too (one copy per thread): what one operation leaves there is
+    # seen by the next operation on the same thread
+    for m in repo.modules.values():
+        if m.name.startswith("labrea.mypy"):
+            continue
+        for name, v in m.names.items():
+            if v[0] == "var" and isinstance(v[1], ast.Call) and ast.unparse(v[1].func).split(".")[-1] in ("local", "ContextVar") \
+                    and ("threading" in ast.unparse(v[1].func) or "contextvars" in ast.unparse(v[1].func) or ast.unparse(v[1].func) in ("local", "ContextVar")):
+                n += 1
+                res.add(f"{m.name}.{name}:thread-local module state", False, m.relpath, getattr(v[1], "lineno", 1),
+                        f"{name} = {ast.unparse(v[1])[:40]}: per-thread state that survives the operation that wrote it (an exception between writing and "
+                        "clearing leaves it behind)", nec)
     # a mutable default argument is module-level state in disguise: it is created once, when the function is defined,
     # and every call that does not pass the argument works on the same object
     probe = ast.parse("def f(x, seen=[]):\n    seen.append(x)\n    return seen\n").body[0]
@@ -1397,6 +1456,40 @@ def ambient_reads(tree: ast.AST) -> List[tuple]:
     return out
 
 
+CONCURRENCY = ("threading.Thread", "threading.Timer", "concurrent.futures.", "multiprocessing.", "asyncio.", "_thread.start_new_thread", "subprocess.", "os.fork")
+
+
+def concurrency_uses(tree: ast.AST) -> List[tuple]:
+    """(line, qualified name) of every reference to something that runs code on another thread, process or event loop."""
+    alias: Dict[str, str] = {}
+    for n in ast.walk(tree):
+        if isinstance(n, ast.Import):
+            for a in n.names:
+                alias[a.asname or a.name.split(".")[0]] = a.name if a.asname else a.name.split(".")[0]
+        elif isinstance(n, ast.ImportFrom) and n.module and not n.level:
+            for a in n.names:
+                alias[a.asname or a.name] = f"{n.module}.{a.name}"
+    out = []
+    for call in ast.walk(tree):
+        if not isinstance(call, ast.Call):
+            continue        # only uses that create something count: the names also serve as type annotations
+        n = call.func
+        q = None
+        if isinstance(n, ast.Attribute):
+            parts = [n.attr]
+            cur = n.value
+            while isinstance(cur, ast.Attribute):
+                parts.append(cur.attr)
+                cur = cur.value
+            if isinstance(cur, ast.Name) and cur.id in alias:
+                q = ".".join([alias[cur.id]] + parts[::-1])
+        elif isinstance(n, ast.Name) and n.id in alias:
+            q = alias[n.id]
+        if q and any(q == c or q.startswith(c if c.endswith(".") else c + ".") or (c.endswith(".") and q + "." == c) for c in CONCURRENCY):
+            out.append((call.lineno, q))
+    return out
+
+
 def rule_AI(run: Run) -> RuleResult:
     """No ambient inputs: what an operation returns, reports or stores is a function of its arguments."""
     res = RuleResult("R-AI")
@@ -1416,7 +1509,85 @@ def rule_AI(run: Run) -> RuleResult:
         res.add(f"{m.name}:reads no ambient input", not hits, m.relpath, hits[0][0] if hits else 1,
                 "no reference to environment variables, clocks, random sources, host or user identity" if not hits
                 else "reads " + ", ".join(sorted({q for _, q in hits})) + f" (line {hits[0][0]})", nec)
+    # evaluation happens on the caller's thread: the library starts no threads, processes or event loops of its own
+    tprobe = ast.parse("from concurrent.futures import ThreadPoolExecutor\ndef f(xs):\n    with ThreadPoolExecutor() as pool:\n        return list(pool.map(str, xs))\n")
+    if not concurrency_uses(tprobe):
+        raise AnalysisError("R-AI: the concurrency detector no longer sees its positive example")
+    for m in run.repo.modules.values():
+        if m.name.startswith("labrea.mypy"):
+            continue
+        hits = concurrency_uses(m.tree)
+        res.add(f"{m.name}:starts no threads or processes", not hits, m.relpath, hits[0][0] if hits else 1,
+                "no thread, pool, process or event loop is created" if not hits else "uses " + ", ".join(sorted({q for _, q in hits})) + f" (line {hits[0][0]})",
+                "parts of one evaluation that run concurrently race on every cache they share: both miss, both run the body and its effects "
+                "(C02), in an order the caller cannot rely on (C06), under handler scopes that are per thread (C14)")
     res.count("modules", n)
+    return res
+
+
+# ------------------------------------------------------------------ R-HK
+SWITCH_OPTIONS = {
+    "LABREA.CACHE.DISABLED": "caching switch (side behaviour only, R-SH / R-VP)",
+    "LABREA.CACHE.DISABLE": "legacy spelling of the caching switch",
+    "LABREA.EFFECTS.DISABLED": "effects switch (side behaviour only)",
+    "LABREA.LOGGING.DISABLED": "logging switch (side behaviour only)",
+}
+
+
+def constant_key_reads(repo, m) -> List[tuple]:
+    """(line, key, how) of every look-up of a *literal* option key in the module: get_dotted_key / dotted_key_exists /
+    Option(...) / options[...] / options.get(...) with a string constant (or a module-level string constant) as key."""
+    consts = {n: v[1].value for n, v in m.names.items() if v[0] == "var" and isinstance(v[1], ast.Constant) and isinstance(v[1].value, str)}
+
+    def key_of(e):
+        if isinstance(e, ast.Constant) and isinstance(e.value, str):
+            return e.value
+        if isinstance(e, ast.Name) and e.id in consts:
+            return consts[e.id]
+        return None
+    out = []
+    for n in ast.walk(m.tree):
+        if isinstance(n, ast.Call):
+            nm = astu.short_name(n)
+            if nm in ("get_dotted_key", "dotted_key_exists") and n.args and key_of(n.args[0]) is not None:
+                out.append((n.lineno, key_of(n.args[0]), nm))
+            elif nm == "Option" and n.args and key_of(n.args[0]) is not None:
+                r = repo.resolve_expr(m, n.func) if isinstance(n.func, (ast.Name, ast.Attribute)) else None
+                if r and r[0] == "class" and r[1].name == "Option":
+                    out.append((n.lineno, key_of(n.args[0]), "Option(...)"))
+            elif isinstance(n.func, ast.Attribute) and n.func.attr in ("get", "pop", "setdefault") and n.args and key_of(n.args[0]) is not None \
+                    and "options" in ast.unparse(n.func.value).lower():
+                out.append((n.lineno, key_of(n.args[0]), f"{ast.unparse(n.func)}(...)"))
+        elif isinstance(n, ast.Subscript) and key_of(n.slice) is not None and "options" in ast.unparse(n.value).lower():
+            out.append((n.lineno, key_of(n.slice), f"{ast.unparse(n.value)}[...]"))
+    return out
+
+
+def rule_HK(run: Run) -> RuleResult:
+    """The library itself reads no option by name except the documented side switches."""
+    res = RuleResult("R-HK")
+    repo = run.repo
+    nec = ("an option that library code looks up by a literal name is read behind the back of keys(): it is not reported, not in the "
+           "fingerprint, and not restricted away — harmless only for the documented switches, which change side behaviour and never a "
+           "value (R-SH, R-VP); any other such option lets the outcome depend on a key outside keys(o) (C03, C16)")
+    probe_m = type("M", (), {})()
+    probe_m.tree = ast.parse("STRICT = 'LABREA.TYPE_VALIDATION.STRICT'\ndef f(request):\n    return get_dotted_key(STRICT, request.options)\n")
+    probe_m.names = {"STRICT": ("var", probe_m.tree.body[0].value)}
+    if [k for _, k, _ in constant_key_reads(repo, probe_m)] != ["LABREA.TYPE_VALIDATION.STRICT"]:
+        raise AnalysisError("R-HK: the literal-key detector no longer sees its positive example")
+    n = 0
+    for m in repo.modules.values():
+        if m.name.startswith("labrea.mypy"):
+            continue
+        reads = constant_key_reads(repo, m)
+        n += len(reads)
+        other = [(ln, k, how) for ln, k, how in reads if k not in SWITCH_OPTIONS]
+        res.add(f"{m.name}:reads no option by a literal name except the documented switches", not other, m.relpath, other[0][0] if other else 1,
+                (f"{len(reads)} literal look-ups, all documented switches" if reads else "no literal option look-up") if not other
+                else f"{other[0][2]} looks up '{other[0][1]}' (line {other[0][0]})", nec)
+    if n < 4:
+        raise AnalysisError(f"R-HK: only {n} literal switch look-ups found (the cache, effects and logging switches expected)")
+    res.count("literal_lookups", n)
     return res
 
 
@@ -1478,6 +1649,58 @@ def rule_OH(run: Run) -> RuleResult:
             hits = _orders_attr(fn, attrs, sn)
             res.add(f"{ci.qualname}.{mn}:does not order the hashable aliases {sorted(attrs)}", not hits, ci.module.relpath, hits[0][0] if hits else fn.lineno,
                     hits[0][1] + " compares user-supplied aliases with each other" if hits else "no sorted()/min()/max()/sort() over them", nec)
+    # likewise a value looked up in the options is arbitrary JSON (a list of mappings, mixed scalars): it has no order
+    for m, cls, fn, q in iter_functions(repo):
+        if m.name.startswith("labrea.mypy"):
+            continue
+        looked = set()
+        for x in astu.walk_no_nested(fn):
+            if isinstance(x, (ast.Assign, ast.AnnAssign)) and isinstance(x.value, ast.Call) and astu.short_name(x.value) in ("get_dotted_key", "resolve"):
+                for t in (x.targets if isinstance(x, ast.Assign) else [x.target]):
+                    if isinstance(t, ast.Name):
+                        looked.add(t.id)
+        if not looked:
+            continue
+        for x in astu.walk_no_nested(fn):
+            if isinstance(x, ast.Call) and astu.callee_name(x) in ("sorted", "min", "max") and x.args and isinstance(x.args[0], ast.Name) and x.args[0].id in looked \
+                    and not any(k.arg == "key" and isinstance(k.value, ast.Name) and k.value.id in ("str", "repr") for k in x.keywords):
+                res.add(f"{q}:orders a value looked up in the options", False, m.relpath, x.lineno,
+                        f"{ast.unparse(x)[:50]}: `{x.args[0].id}` comes from the options dictionary and may hold anything JSON allows", nec)
+    # a __repr__ never fails: reprs are embedded in every error message of the library (CacheGetFailure, EvaluationError)
+    for ci in repo.classes.values():
+        if ci.module.name.startswith("labrea.mypy"):
+            continue
+        for mn, fn in ci.methods.items():
+            if mn not in ("__repr__", "__str__"):
+                continue
+            reach = astu.reachable_self_methods(ci, [mn])
+            for hn, hfn in reach.items():
+                guarded = {ast.unparse(x.args[0]) for x in ast.walk(hfn) if isinstance(x, ast.Call) and astu.callee_name(x) == "hasattr" and len(x.args) == 2}
+                sn = astu.first_param(hfn) or "self"
+                for x in astu.walk_no_nested(hfn):
+                    if isinstance(x, ast.Attribute) and x.attr in ("__name__", "__qualname__") and isinstance(x.ctx, ast.Load):
+                        base = ast.unparse(x.value)
+                        if base in (sn, "cls", f"{sn}.__class__", f"type({sn})") or base in guarded:
+                            continue
+                        # an element of a collection of classes (instances of a metaclass of the library) always has a name
+                        is_class_elem = False
+                        for y in ast.walk(hfn):
+                            if isinstance(y, (ast.comprehension, ast.For)) and isinstance(y.target, ast.Name) and y.target.id == base \
+                                    and isinstance(y.iter, ast.Attribute) and isinstance(y.iter.value, ast.Name) and y.iter.value.id == sn:
+                                for kc in ci.mro():
+                                    ann = kc.annotations.get(y.iter.attr)
+                                    if ann is not None:
+                                        for z in ast.walk(ann):
+                                            if isinstance(z, (ast.Name, ast.Constant)):
+                                                nm_ = z.id if isinstance(z, ast.Name) else (z.value if isinstance(z.value, str) else "")
+                                                c2 = repo.resolve_name(kc.module, nm_.strip("'\"")) if nm_ else None
+                                                if c2 and c2[0] == "class" and "type" in [b for k2 in c2[1].mro() for b in k2.external_bases()]:
+                                                    is_class_elem = True
+                        if is_class_elem:
+                            continue
+                        res.add(f"{ci.qualname}.{hn}:reads {base}.{x.attr} unguarded while building the repr", False, ci.module.relpath, x.lineno,
+                                f"{base}.{x.attr}: partial objects, callable instances and operator helpers have no {x.attr}; the AttributeError replaces the "
+                                "message being built", nec)
     if n < 2:
         raise AnalysisError(f"R-OH: only {n} classes keep hashable aliases (Switch and Overloaded expected)")
     res.count("classes", n)
